@@ -106,6 +106,39 @@ def analyse_dst_len(ctx, F, inst, hdr_ty, base, elem, label, size_off=4, size_w=
               site, how=how or "",
               why="no guard with a diverging failing edge establishes size >= %d (facts at return: %s)" %
               (base, [G.show(f) for f in facts]))
+    if how is not None:
+        tight_rejection(ctx, F, inst, A, label, size_t, base, elem, inner)
+
+
+def tight_rejection(ctx, F, inst, A, label, size_t, base, elem, inner):
+    """L3x: the rejection is *exact*: dst_len diverges only for a size below the fixed part (or, for multi-byte elements, one that
+    leaves a remainder).  Every panic edge of dst_len that no fact rules out must lie under facts that entail one of the two
+    conditions - so `size == BASE_SIZE` (an empty variable part) and every larger conforming size are answered, not rejected
+    (mutation sweep: `assert!(size > BASE_SIZE)` passed L3, whose fact it entails).  Overflow-checked arithmetic is C08's."""
+    from .. import panic as P
+    bad = []
+    n = 0
+    for s in P.sites_of(F, inst):
+        if s.status == "discharged" or s.kind in ("overflow", "unchecked"):
+            continue
+        n += 1
+        facts = list(A.g.facts_at(s.bb))
+        if s.kind == "maypanic" and s.terms and s.what.split("::")[-1] in ("unwrap", "expect"):
+            # `x.checked_sub(y).unwrap()/expect(..)` diverges exactly when the answer is None, i.e. x < y (and `checked_rem` & co. by
+            # their contracts): the failing condition of the call is a fact of its panic edge
+            o_ = G.strip(s.terms[0])
+            if o_[0] == "checked" and o_[1] == "Sub":
+                facts.append(("cmp", "Lt", o_[2][0], o_[2][1]))
+        ok = G.entails(facts, ("cmp", "Lt", size_t, ("c", base))) is not None
+        if not ok and elem > 1:
+            ok = G.entails(facts, ("cmp", "Ne", ("bin", "Rem", inner, ("c", elem), "usize"), ("c", 0))) is not None
+        if not ok and s.kind == "divzero":
+            ok = False
+        if not ok:
+            bad.append("%s %s under %s" % (s.kind, s.what, [G.show(f) for f in facts][:4]))
+    ctx.check(not bad, "L3x", label, "dst_len(%s) rejects only sizes below the fixed part%s: every panic edge lies under `size < %d`%s" %
+              (label, " or leaving a remainder" if elem > 1 else "", base, " or `(size - %d) %% %d != 0`" % (base, elem) if elem > 1 else ""),
+              A.site(), how="%d panic edge(s), each under the rejecting condition" % n, why="; ".join(bad)[:500])
 
 
 def header_guarantee(ctx, F, hdr_ty):
